@@ -770,7 +770,7 @@ func (m *machine) callFn(caller *frame, fn *ssa.Function, args []value, env []va
 		// package initialisers of dependencies are run lazily on first global access
 		return nil
 	}
-	if pkg := fnPkgPath(fn); pkg != "" && m.eng.blockedPkg(pkg) {
+	if pkg := fnPkgPath(fn); pkg != "" && m.eng.blockedPkg(pkg) && fn.Synthetic == "" {
 		if !m.eng.allowedFn[name] {
 			m.unsupported("call into non-executed package: %s at %s", name, m.where())
 		}
